@@ -326,6 +326,44 @@ macro_rules! spell_type {
                     Out { ok, nt: matches!(b, Some(Some(_))), got: enc(a), want: enc(b), ops: 2, panicked: false }
                 }));
             }
+            // ---- FromStr on decimal strings that denote a double exactly: the rounding boundaries of the type (midpoints of
+            // adjacent posits, exact in f64) and the doubles next to them, printed with all their digits; and exponent forms
+            // over the whole f64 range. `s.parse::<P>()` is `from_f64` of the double the string denotes.
+            {
+                let l: Vec<u32> = if n <= 16 { (1..(1u64 << (n - 1)) - 1).map(|x| x as u32).collect() } else {
+                    let mut a: Vec<u32> = alphabet(32, 2, true).into_iter().filter(|&x| x > 0 && x < 0x7fff_fffe).collect();
+                    a.extend((1..(1u32 << 15)).map(|i| i << 16 | 0x7fff));
+                    a.sort();
+                    a.dedup();
+                    a
+                };
+                v.push(CellDef::new("C17", format!("{}/parse#boundaries", name), Space::list32(l, "for every posit x of the list: the midpoint of x and its successor and the doubles just above / below it, both signs, as exact decimal strings"), move |k| {
+                    let x = k as u32;
+                    let (Some(a), Some(b)) = (vp_oracle::decode(n, es, x), vp_oracle::decode(n, es, x + 1)) else { return Out::skip() };
+                    let mid = (vp_oracle::to_f64_exact(a) + vp_oracle::to_f64_exact(b)) / 2.0; // exact: both have <= 30 significant bits
+                    let mut ok = true;
+                    for f in [mid, f64::from_bits(mid.to_bits() + 1), f64::from_bits(mid.to_bits() - 1)] {
+                        for sg in [1.0f64, -1.0] {
+                            let f = f * sg;
+                            let st = format!("{:.1100}", f); // every digit of the double
+                            let st = st.trim_end_matches('0').to_string();
+                            let st2 = format!("{:e}", f); // shortest round-trip form
+                            for s in [&st, &st2] {
+                                ok &= agree(|| s.parse::<P>().ok().map(|q| q.to_bits() as u32), || Some(P::from_f64(f).to_bits() as u32));
+                                ok &= agree(|| <P as Num>::from_str_radix(s, 10).ok().map(|q| q.to_bits() as u32), || s.parse::<f64>().ok().map(|g| P::from_f64(g).to_bits() as u32));
+                            }
+                        }
+                    }
+                    Out { ok, nt: true, got: !ok as u128, want: 0, ops: 24, panicked: false }
+                }));
+                v.push(CellDef::new("C17", format!("{}/parse#exponents", name), Space::func(4 * 700, "strings 1e<k>, 9.5e<k>, -1e<k>, 2.5E<k> for k = -350..=349", |i| i as u128), move |k| {
+                    let e = (k / 4) as i64 - 350;
+                    let st = match k % 4 { 0 => format!("1e{e}"), 1 => format!("9.5e{e}"), 2 => format!("-1e{e}"), _ => format!("2.5E{e}") };
+                    let ok = agree(|| st.parse::<P>().ok().map(|q| q.to_bits() as u32), || st.parse::<f64>().ok().map(|g| P::from_f64(g).to_bits() as u32))
+                        & agree(|| <P as Num>::from_str_radix(&st, 10).ok().map(|q| q.to_bits() as u32), || st.parse::<f64>().ok().map(|g| P::from_f64(g).to_bits() as u32));
+                    Out { ok, nt: true, got: !ok as u128, want: 0, ops: 2, panicked: false }
+                }));
+            }
             let _ = (n, es);
             v
         }
